@@ -346,6 +346,41 @@ def rule_d(ctx, fns):
     return n
 
 
+def rule_f_forward_map_division_exact(ctx, fns):
+    """Ring pairs are partitioned over (segment, axial position) only if the forward map (ring pair -> axial position) and the table built
+    for the inverse direction agree.  The forward map is  ax = (ring1 + ring2 - offset[segment]) * inc / 2  in INTEGER arithmetic, the
+    table puts ring1 + ring2 = 2 * ax / inc + offset.  For inc == 2 the division is exact; for inc == 1 (a segment with a single
+    ring difference) it is exact only if ring1 + ring2 - offset is even, i.e. (ring difference - offset) even.  The code that computes
+    the offsets must therefore REJECT a segment for which that parity fails (error()), not merely warn: otherwise every ring pair of the
+    segment is mapped to an axial position whose list does not contain it."""
+    n = 0
+    fwd = [f for f in fns if f.short == "get_segment_axial_pos_num_for_ring_pair" and f.body is not None]
+    ini = [f for f in fns if f.short == "initialise_ring_diff_arrays" and f.body is not None and f.cfg_raw]
+    if not fwd or not ini:
+        ctx.fail_broken("anchor get_segment_axial_pos_num_for_ring_pair / initialise_ring_diff_arrays not found")
+        return 0
+    f = fwd[0]
+    divs = [m for m in f.walk() if m.k == "BinaryOperator" and m.op == "/" and m.type == "int" and key(m.c[1].strip()) == "2" and "ax_pos_num_offset" in key(m.c[0])]
+    if len(divs) != 1:
+        ctx.unrec(f.qn, "expected one integer division by 2 of (ring1 + ring2 - offset) * inc")
+        return 0
+    g = ini[0]
+    cfg = CFG(g)
+    checks = [m for m in g.walk() if m.k == "IfStmt" and m.c and re.search(r"\(!= \(% \(- .*ring_difference\(.*\) this\.ax_pos_num_offset\[.*\]\) 2\) 0\)", key(m.c[0].strip()))]
+    if not checks:
+        ctx.ob("C01.f-forward-map-division-exact", g.qn, "parity-of-single-ring-difference-segments", False, g.where(), "no test of the parity of (ring difference - axial position offset) for segments with one ring difference: the integer division in the forward ring-pair map can truncate")
+        return 1
+    for i, c in enumerate(checks):
+        then = c.c[1]
+        aborts = any(x.is_call() and (x.callee or "").endswith("::error") or (x.is_call() and (x.callee or "") == "stir::error") for x in then.walk())
+        only_warns = any(x.is_call() and (x.callee or "").split("::")[-1] == "warning" for x in then.walk())
+        guarded_inc1 = any(a.k == "IfStmt" and "get_num_axial_poss_per_ring_inc" in key(a.c[0]) for a in c.ancestors())
+        ok = aborts and guarded_inc1
+        ctx.ob("C01.f-forward-map-division-exact", g.qn, "parity-of-single-ring-difference-segments@%d" % i, ok, c.where(), "a segment with one ring difference whose (ring difference - offset) is odd is rejected" if ok else "a segment with one ring difference whose (ring difference - offset) is odd is accepted%s: get_segment_axial_pos_num_for_ring_pair then truncates (ring1 + ring2 - offset) / 2 and maps every ring pair of the segment to an axial position whose ring-pair list does not contain it" % (" with a warning only" if only_warns else ""))
+        n += 1
+    return n
+
+
 def run(ctx):
     ctx.explanation = (
         "Decides: (a) get_bin_for_det_pair (cylindrical and generic/blocks geometries) has exactly the two dual outcomes selected by the "
@@ -369,6 +404,8 @@ def run(ctx):
     nd = rule_d(ctx, fns)
     rule_e_tables_from_fixed_inputs(ctx, fns)
     ctx.require_count("C01.e-tables-from-fixed-inputs", 2)
+    rule_f_forward_map_division_exact(ctx, fns)
+    ctx.require_count("C01.f-forward-map-division-exact", 1)
     ctx.require_count("C01.a-swap-duality", 3)
     ctx.require_count("C01.b-initialise-before-read", 8)
     ctx.require_count("C01.c-tables-invalidated", 7)
